@@ -59,6 +59,9 @@ CLAIMS = {
  "C15": ("exploration", "8.C15", "deterministic simulation: 2-4 application threads on one real ContactlessFrontend under a seeded scheduler (pre-emption at synchronisation operations and source lines, threads blocked in virtual time inside driver calls); recording driver proxy as oracle",
          "Seeded exploration over thread programs (open, close, with-block, sense, listen, exchange, size queries, connect(rdwr/llcp/card) with callbacks using the tag, beep on/off) x schedules x environments (W4 stub driver with tag models arriving/leaving; real udp driver with a live second stack): at entry of every driver method the frontend lock must be held by the calling thread, no other thread may be inside the driver, the device object must not have been closed before; all 17 syntactic self.device call sites of the frontend are reached (coverage measure).",
          "a driver call = a public method call on the object stored in ContactlessFrontend.device; sampling of schedules, not their enumeration"),
+ "C18": ("exploration", "8.C18", "deterministic simulation: connect()/sense() call histories against simulated environments (tag models arriving/leaving in simulated time, discovery faults, a live second stack on the simulated air) judged by a contract model",
+         "Seeded exploration over option dictionaries (rdwr/llcp/card present or not, on-startup results of right and wrong types, on-discover/on-connect/on-release results over true and false values of several types, targets incl. unknown and unsupported ones, iterations, interval, roles, timeout) x environments (no tag, tag of each type with arrival and stay time, unsupported technologies, host link error in discovery, live peer / reader / emulated card as second real stack) x terminate times; the recorded callback/poll/driver history is checked against the contract model (startup first and once, discover<connect<release per activation, release exactly once per true on-connect, return value None/False/True/object as documented, no discovery after terminate() returned true, return within one discovery cycle + 1.5 s).  sense(): histories of sense/listen/exchange/size operations with unsupported/invalid targets and CommunicationError faults on every discovery attempt: no exception with several targets, discovery order and first-found result, field off, no stale target in exchange().",
+         "callbacks return values and never raise; a silent reader holding the field in card emulation and host link errors inside presence loops are outside the quantifier; promptness bound is one configured discovery cycle + 1.5 s"),
 }
 NA = {
  "C11": "pure encode/decode function of its argument: no schedule, clock, fault, peer or history enters the statement; deterministic simulation adds nothing over input generation (DESIGN.md section 9)",
